@@ -1,6 +1,6 @@
 (** C07 — correspondence: the model's pair tree and AST against pest's and the real builder's, and the
     spec-side predicate on the implementation's outputs. *)
-From V Require Import Base.Util Gql.Ast Peg.Peg Gen.C07_grammar_gen C07.Builder C07.Model C07.AstEq C07.Spec.
+From V Require Import Base.Util Gql.Ast Peg.Peg Gen.C07_grammar_gen C07.Builder C07.Model C07.AstEq C07.AstEqNP C07.Spec.
 
 (** one pair in pre-order, as the harness prints pest's token queue *)
 Inductive tok := T (r : rule) (s e n : N).
@@ -17,8 +17,11 @@ Definition tok_eqb (a b : tok) : bool :=
   match a, b with T r s e n, T r' s' e' n' => rule_eqb r r' && N.eqb s s' && N.eqb e e' && N.eqb n n' end.
 
 Inductive case :=
-| COp (file : N) (inp : str) (tree : option (list tok)) (ast : presult opdoc) (canon_same : bool) (expect : N)
-| CTs (file : N) (inp : str) (tree : option (list tok)) (ast : presult tsdoc) (canon_same : bool) (expect : N).
+| COp (file : N) (inp : str) (tree : option (list tok)) (ast : presult opdoc) (canon_same : bool) (expect : N) (expected : option opdoc)
+| CTs (file : N) (inp : str) (tree : option (list tok)) (ast : presult tsdoc) (canon_same : bool) (expect : N) (expected : option tsdoc).
+(** [expected]: the abstract document the generator built this text from -- constructed from the generator's own
+    choices (names, values, types, directives, descriptions, default values, members, locations, ...), never by
+    parsing -- as a term of Gql/Ast.v with dummy positions. *)
 (** [canon_same]: the position-erased AST equals that of the canonical rendering of the same token
     sequence (computed by the harness on the implementation's outputs; true when there is no partner).
     [expect] = 1: the harness built the text from the grammar of the specification, so it is a document of
@@ -42,23 +45,29 @@ Definition presult_eqb {A} (eqb : A -> A -> bool) (a b : presult A) : bool :=
 
 Definition agree (c : case) : bool :=
   match c with
-  | COp file inp tree ast _ _ =>
+  | COp file inp tree ast _ _ _ =>
       tree_agrees R_ExecutableDocument inp tree && presult_eqb opdoc_eqb (parse_operation_document file inp) ast
-  | CTs file inp tree ast _ _ =>
+  | CTs file inp tree ast _ _ _ =>
       tree_agrees R_TypeSystemExtensionDocument inp tree && presult_eqb tsdoc_eqb (parse_type_system_document file inp) ast
   end.
 
 (** the property, read on the implementation's own output: for a text of the language the parse must
     succeed, every positioned node must sit on its token (Spec.v), strings must carry the value the
-    specification gives them, and the result must not depend on ignored tokens *)
+    specification gives them, the result must not depend on ignored tokens, and -- where the generator supplied it -- the position-erased
+    result must be the abstract document the text was generated from *)
+Definition matches_expected {A} (eqb : A -> A -> bool) (d : A) (expected : option A) : bool :=
+  match expected with Some e => eqb d e | None => true end.
+
 Definition holds (c : case) : bool :=
   match c with
-  | COp file inp _ ast same expect =>
-      if N.eqb expect 1 then match ast with POk d => ck_opdoc inp file d && same | _ => false end
+  | COp file inp _ ast same expect expected =>
+      if N.eqb expect 1 then
+        match ast with POk d => ck_opdoc inp file d && same && matches_expected opdoc_eqb_np d expected | _ => false end
       else if N.eqb expect 2 then match ast with PErr => true | _ => false end
       else true
-  | CTs file inp _ ast same expect =>
-      if N.eqb expect 1 then match ast with POk d => ck_tsdoc inp file d && same | _ => false end
+  | CTs file inp _ ast same expect expected =>
+      if N.eqb expect 1 then
+        match ast with POk d => ck_tsdoc inp file d && same && matches_expected tsdoc_eqb_np d expected | _ => false end
       else if N.eqb expect 2 then match ast with PErr => true | _ => false end
       else true
   end.
